@@ -674,10 +674,7 @@ func funcGroup(fn *ssa.Function) []*ssa.Function {
 			if callee == nil {
 				continue
 			}
-			pk, rp := callee.Pkg, fn.Pkg
-			if rp == nil && fn.Parent() != nil {
-				rp = fn.Parent().Pkg
-			}
+			pk, rp := callee.Pkg, pkgOfFunc(fn)
 			if pk != nil && pk == rp {
 				add(callee, depth+1)
 			}
@@ -685,6 +682,37 @@ func funcGroup(fn *ssa.Function) []*ssa.Function {
 	}
 	add(fn, 0)
 	return out
+}
+
+// pkgOfFunc: the package a function belongs to; for a function literal its enclosing
+// function's, for an instantiation its origin's, for a synthetic wrapper (bound method
+// closure, thunk) that of the function it wraps.
+func pkgOfFunc(fn *ssa.Function) *ssa.Package {
+	for d := 0; d < 6 && fn != nil; d++ {
+		if fn.Pkg != nil {
+			return fn.Pkg
+		}
+		if fn.Parent() != nil {
+			fn = fn.Parent()
+			continue
+		}
+		if fn.Origin() != nil {
+			fn = fn.Origin()
+			continue
+		}
+		if fn.Synthetic != "" && fn.Blocks != nil {
+			var next *ssa.Function
+			for _, c := range callsIn(fn) {
+				if callee := staticCallee(c); callee != nil && next == nil {
+					next = callee
+				}
+			}
+			fn = next
+			continue
+		}
+		return nil
+	}
+	return nil
 }
 
 // originValue resolves a value to where it was introduced, independent of local
